@@ -65,7 +65,9 @@ var pwClasses = []pwClass{
 	{"ascii-punct", func(r *rand.Rand) (string, string) {
 		return randAlnum(r, 3) + pick(r, "!", "#", "$", "%", "-", "_", "+", "(", "\\", "/") + randAlnum(r, 2), pick(r, "~", "*", "@") + randAlnum(r, 4)
 	}},
-	{"ascii-space", func(r *rand.Rand) (string, string) { return randAlnum(r, 3) + " " + randAlnum(r, 3), "own er" + randAlnum(r, 2) }},
+	{"ascii-space", func(r *rand.Rand) (string, string) {
+		return randAlnum(r, 3) + " " + randAlnum(r, 3), "own er" + randAlnum(r, 2)
+	}},
 	{"latin1-letters", func(r *rand.Rand) (string, string) {
 		return pick(r, "pässwörd", "señor", "Ångström", "crème") + randAlnum(r, 2), pick(r, "maître", "façade", "Übung") + randAlnum(r, 2)
 	}},
@@ -78,7 +80,9 @@ var pwClasses = []pwClass{
 	{"unicode-decomposed", func(r *rand.Rand) (string, string) {
 		return pick(r, "café", "Ångstrom", "ño") + randAlnum(r, 2), "über" + randAlnum(r, 2)
 	}},
-	{"unicode-nonlatin", func(r *rand.Rand) (string, string) { return pick(r, "日本語", "пароль", "κωδικός") + randAlnum(r, 2), pick(r, "密码", "слово") + randAlnum(r, 2) }},
+	{"unicode-nonlatin", func(r *rand.Rand) (string, string) {
+		return pick(r, "日本語", "пароль", "κωδικός") + randAlnum(r, 2), pick(r, "密码", "слово") + randAlnum(r, 2)
+	}},
 	{"long-33-127", func(r *rand.Rand) (string, string) { return randAlnum(r, 33+r.IntN(95)), randAlnum(r, 33+r.IntN(95)) }},
 	{"user=owner", func(r *rand.Rand) (string, string) { s := randAlnum(r, 1+r.IntN(12)); return s, s }},
 }
@@ -207,25 +211,30 @@ func prepareDocs(t *vk.T, rd DocReader, dir string) []*baseDoc {
 			t.Count("docs_skipped_encrypted", 1)
 			return
 		}
+		// The reference is the original as pdfcpu reads it. Only documents that pdfcpu's plain
+		// (unencrypted) read-optimize-write pipeline leaves equivalent are used, so that any
+		// difference seen after encryption is due to encryption.
 		b1 := filepath.Join(dir, fmt.Sprintf("base1-%d.pdf", i))
-		b2 := filepath.Join(dir, fmt.Sprintf("base2-%d.pdf", i))
-		if optimizeFile(p, b1) != nil || optimizeFile(b1, b2) != nil {
+		if optimizeFile(p, b1) != nil {
 			t.Count("docs_skipped_optimize_fails", 1)
 			return
 		}
+		d0, err0 := rd.Open(p, "", "")
 		d1, err1 := rd.Open(b1, "", "")
-		d2, err2 := rd.Open(b2, "", "")
-		if err1 != nil || err2 != nil {
+		os.Remove(b1)
+		if err0 != nil || err1 != nil {
 			t.Count("docs_skipped_baseline_unreadable", 1)
 			return
 		}
-		// the comparison below needs the unencrypted pipeline itself to be stable
-		if cls, _ := diffDocs(d1, d2); cls != "" {
-			t.Count("docs_skipped_pipeline_not_idempotent", 1)
+		if cls, _ := diffDocs(d0, d1); cls != "" {
+			t.Count("docs_skipped_changed_by_plain_rewrite", 1)
 			return
 		}
-		res[i] = &baseDoc{Path: p, Name: strings.TrimPrefix(p, filepath.Join(vk.RepoDir(), "pkg", "testdata")+"/"),
-			PDF20: bytes.HasPrefix(raw, []byte("%PDF-2.")), Base: freeze(d1)}
+		v20 := false
+		if v, ok := d0.(interface{ PDF20() bool }); ok {
+			v20 = v.PDF20()
+		}
+		res[i] = &baseDoc{Path: p, Name: strings.TrimPrefix(p, filepath.Join(vk.RepoDir(), "pkg", "testdata")+"/"), PDF20: v20, Base: freeze(d0)}
 	})
 	var out []*baseDoc
 	for _, d := range res {
@@ -280,10 +289,12 @@ func runDocs(t *vk.T) {
 		i  int
 	}
 	var jobs []job
-	for _, d := range sel {
-		for _, a := range algos {
-			for _, pc := range pwClasses {
-				jobs = append(jobs, job{d, a, pc, len(jobs)})
+	for rep := 0; rep < t.Pick(1, 4); rep++ { // thorough: several random members of every class
+		for _, d := range sel {
+			for _, a := range algos {
+				for _, pc := range pwClasses {
+					jobs = append(jobs, job{d, a, pc, len(jobs)})
+				}
 			}
 		}
 	}
@@ -412,8 +423,8 @@ func runDocs(t *vk.T) {
 func main() {
 	vk.Run("C22", "exploration", func(t *vk.T) {
 		api.DisableConfigDir()
-		t.Rule("(i) corpus documents (<=150 KB, valid, unencrypted, stable under pdfcpu's own optimize+write) x 4 algorithms x 11 password classes (random members) x random permission sets; non-trivial = distinct (doc, alg, passwords, permissions); (ii) primitives: every standard (R, cipher, key length) x obj {0,1,2^23,2^31-1} x gen {0,1,65535} x all lengths 0..64 + random lengths to 4 KiB, non-trivial = non-empty plaintext")
-		t.Assume("document equivalence is judged with pdfcpu's own reader (behind the Doc/DocReader interface): page count, decoded page content, Info strings, canonical object graph from Root/Info ignoring /ID, /Encrypt, /Length, /Filter, /DecodeParms, Producer/ModDate/CreationDate; the reference document is the original after the same pipeline without encryption (api.OptimizeFile)")
+		t.Rule("(i) corpus documents (<=150 KB, valid, unencrypted, unchanged by pdfcpu's plain optimize+write) x 4 algorithms x 11 password classes (random members) x random permission sets; non-trivial = distinct (doc, alg, passwords, permissions); (ii) primitives: every standard (R, cipher, key length) x obj {0,1,2^23,2^31-1} x gen {0,1,65535} x all lengths 0..64 + random lengths to 4 KiB, non-trivial = non-empty plaintext")
+		t.Assume("document equivalence is judged with pdfcpu's own reader (behind the Doc/DocReader interface): page count, decoded page content, Info strings, canonical object graph from Root/Info ignoring /ID, /Encrypt, /Length, /Filter, /DecodeParms, Producer/ModDate/CreationDate; the reference is the original document as read; only documents that a plain unencrypted rewrite (api.OptimizeFile) leaves equivalent are used")
 		t.Assume("PDF 2.0 documents are only encrypted with AES-256 (pdfcpu documents that PDF 2.0 requires AES-256); owner passwords are non-empty (pdfcpu documents that encryption needs an owner password)")
 		t.Assume("AESV2 is exercised with 128-bit keys only, RC4 with 40..128 bit, AESV3 with 256 bit (what ISO 32000 defines); R5/R6 with RC4 is not a defined combination and is not driven")
 		runPrimitives(t)
